@@ -50,6 +50,10 @@ func c13Menu() map[string]c13Up {
 		"C": {Name: "C", Backend: "c", User: "uc@users.test", YAML: func(e map[string]string) string {
 			return svc("svcc", "c.sso.test:8443", e["c"], "", addr("uc@users.test"), "")
 		}},
+		// a simple route whose host also matches the overlapping rewrite pattern: the exact match must win
+		"T": {Name: "T", Backend: "t", User: "ut@users.test", YAML: func(e map[string]string) string {
+			return svc("svct", "svc-static.sso.test", e["t"], "", addr("ut@users.test"), "")
+		}},
 		// rewrite: svc-<port>.sso.test -> 127.0.0.1:<port>
 		"R": {Name: "R", Backend: "*port", User: "ur@users.test", YAML: func(e map[string]string) string {
 			return svc("svcr", `^svc-(\d+)\.sso\.test$`, "127.0.0.1:$1", "rewrite", addr("ur@users.test"), "")
@@ -71,7 +75,7 @@ func c13Run(c *fw.Ctx) {
 	vtime.SetManual(harness.T0)
 	defer vtime.SetReal()
 	menu := c13Menu()
-	sets := [][]string{{"A", "B"}, {"A", "C"}, {"A", "R", "S"}, {"S", "R", "A"}, {"B", "S"}, {"R", "B", "A"}}
+	sets := [][]string{{"A", "B"}, {"A", "C"}, {"A", "R", "S"}, {"S", "R", "A"}, {"B", "S"}, {"R", "B", "A"}, {"S", "T"}, {"T", "R", "S"}}
 	if c.Thorough() {
 		sets = append(sets, []string{"A", "B", "C"}, []string{"C", "R"}, []string{"S", "A", "B"}, []string{"R", "S", "C"}, []string{"B", "R", "S"})
 	}
@@ -87,7 +91,7 @@ func c13Run(c *fw.Ctx) {
 			return e
 		}
 		// backends first (their addresses go into the document)
-		names := []string{"a", "b", "c", "s", "p"}
+		names := []string{"a", "b", "c", "s", "t", "p"}
 		// ProxyOpts substitutes {{backend:X}}; build the document with those placeholders
 		addrs := map[string]string{}
 		for _, n := range names {
@@ -115,14 +119,14 @@ func c13Run(c *fw.Ctx) {
 		ce := getEnv(set)
 		e := ce.e
 		port := e.Backends["p"].Addr()[strings.LastIndex(e.Backends["p"].Addr(), ":")+1:]
-		hosts := []string{"a.sso.test", "A.SSO.TEST", "a.sso.test:443", "b.sso.test", "c.sso.test:8443", "c.sso.test", "svc-" + port + ".sso.test", "svc-x.sso.test", "SVC-" + port + ".sso.test", "xsvc-" + port + ".sso.test.evil", "nomatch.test", ""}
+		hosts := []string{"a.sso.test", "A.SSO.TEST", "a.sso.test:443", "b.sso.test", "c.sso.test:8443", "c.sso.test", "svc-" + port + ".sso.test", "svc-x.sso.test", "svc-static.sso.test", "SVC-" + port + ".sso.test", "xsvc-" + port + ".sso.test.evil", "nomatch.test", ""}
 		host := hosts[x.Choose("host", len(hosts))]
 		// who asks: nobody (no cookie), or the user of upstream k with a cookie minted for host m
 		who := x.Choose("cookie-user", len(ce.ups)+1)
 		boundTo := ""
 		if who > 0 {
 			bh := append([]string{host}, hosts[:len(hosts)-1]...)
-			boundTo = bh[x.Choose("cookie-bound-host", 4)]
+			boundTo = bh[x.Choose("cookie-bound-host", 5)]
 		}
 		// ---- reference router over the resolved order ----
 		var want *proxy.UpstreamConfig
@@ -270,7 +274,7 @@ func init() {
 	fw.Register(&fw.Check{
 		ID:    "C13",
 		Level: "exploration",
-		Rule: "full product over upstream sets of 2-3 routes drawn from {simple a.sso.test, simple b.sso.test with provider_slug, simple with port, rewrite ^svc-(\\d+)\\.sso\\.test$ -> 127.0.0.1:$1, overlapping rewrite with a fixed backend} in several orders, loaded through YAML -> SetUpstreamConfigs -> proxy.New with one recording backend per target; " +
+		Rule: "full product over upstream sets of 2-3 routes drawn from {simple a.sso.test, simple b.sso.test with provider_slug, simple with port, rewrite ^svc-(\\d+)\\.sso\\.test$ -> 127.0.0.1:$1, overlapping rewrite with a fixed backend, simple host that also matches that rewrite} in several orders, loaded through YAML -> SetUpstreamConfigs -> proxy.New with one recording backend per target; " +
 			"Host values {exact, upper-case, with port, port-qualified route with and without port, matching both rewrites, matching only the second, upper-case rewrite host, look-alike, matching none, empty} x cookie {none, user of each upstream} x cookie host binding {this host, three others} x cookie slug {own, target's}; " +
 			"oracle = reference router over the order in which the configuration resolved the upstreams (exact simple match first, else first matching rewrite; backend = substitution), 421 and no backend for no route, policy/cookie binding/sign-in provider of that upstream only, a session for another host never accepted; " +
 			"distinct_nontrivial = distinct (upstream set, host class, cookie user, status, backends hit)",
